@@ -593,9 +593,10 @@ func ruleHandlersKeepStateLocal(w *World, r *Report, rule string) {
 								return
 							}
 							if _, isC := st.Val.(*ssa.Const); isC {
-								if lr := lockRegionAny(cl); lr[in] {
-									return
-								}
+								return
+							}
+							if !isResourceType(st.Val.Type()) {
+								return
 							}
 							bad = fmt.Sprintf("%s: the per-connection goroutine stores into field %s of an object captured from outside the accept loop: shared by all connection goroutines", w.Pos(st.Pos()), strings.Join(names, "."))
 						}
@@ -666,9 +667,10 @@ func ruleHandlersKeepStateLocal(w *World, r *Report, rule string) {
 							return
 						}
 						if _, isC := st.Val.(*ssa.Const); isC {
-							if lr := lockRegionAny(f); lr[in] {
-								return // a flag or a reset under a lock
-							}
+							return // flags, resets
+						}
+						if !isResourceType(st.Val.Type()) {
+							return // counters, timestamps ...: shared bookkeeping, not a per-connection resource
 						}
 						bad = fmt.Sprintf("%s: %s%s stores into field %s of the object shared by all connection goroutines: the value of the newest connection replaces every sibling's, and code that reads it back acts on another connection's resource", w.Pos(st.Pos()), via, ssaFuncKey(f), strings.Join(names, "."))
 					})
@@ -695,4 +697,24 @@ func ruleHandlersKeepStateLocal(w *World, r *Report, rule string) {
 func lockRegionAny(fn *ssa.Function) map[ssa.Instruction]bool {
 	region, _ := lockRegion(fn, func(v ssa.Value) bool { return true })
 	return region
+}
+
+// isResourceType: values that stand for one connection's resource — anything with a Close method (connections,
+// streams, sessions), or a slice/map of such.
+func isResourceType(t types.Type) bool {
+	switch u := t.Underlying().(type) {
+	case *types.Slice:
+		return isResourceType(u.Elem())
+	case *types.Map:
+		return isResourceType(u.Elem())
+	}
+	if types.NewMethodSet(t).Lookup(nil, "Close") != nil {
+		return true
+	}
+	if _, isPtr := t.(*types.Pointer); !isPtr {
+		if types.NewMethodSet(types.NewPointer(t)).Lookup(nil, "Close") != nil {
+			return true
+		}
+	}
+	return false
 }
